@@ -148,10 +148,9 @@ class DynBaseRefDict(RefDict):
                         impl[rootlen+1:]) # +1 to remove preceding dot
                 else:
                     if value.refmode == "auto":
-                        if value.is_defined():
-                            return value
-                        else:
-                            return value.direct_bases[0]
+                        # The target is outside of the dynamic tree.
+                        # Keep the binding of the base space.
+                        return value
 
                     elif value.refmode == "relative":
                         raise ValueError(
